@@ -41,9 +41,9 @@ fn one_at(ctx: &mut Ctx, workers: usize, days: i64, threshold: usize, seed: u64,
     if parallel_path {
         ctx.nontrivial(&format!("{}|{}|{}|{}", workers, days, threshold, seed));
     }
-    match rx.recv_timeout(Duration::from_secs(30)) {
+    match rx.recv_timeout(Duration::from_secs(120)) {
         Err(_) => {
-            ctx.fail(input, "no result after 30 s (deadlock / lost wake-up)".into(), "terminates".into());
+            ctx.fail(input, "no result after 120 s (deadlock / lost wake-up)".into(), "terminates".into());
             false // the stuck thread cannot be killed: stop exploring
         }
         Ok(Err(_)) => {
@@ -123,5 +123,5 @@ pub fn c15(ctx: &mut Ctx, tier: &str, r: &mut Rng, js: &[Value], _reqs: &[String
             return;
         }
     }
-    ctx.finish(json!({"watchdog_s": 30}));
+    ctx.finish(json!({"watchdog_s": 120}));
 }
